@@ -242,6 +242,13 @@ theorem add_extnd_correct (cv : EdC F) (r p q : EPt F) (x1 y1 x2 y2 : F) (hp : R
   · simp only [Ed.ed_add_extnd, fieldOps]; ring
   · simp only [Ed.ed_add_extnd, fieldOps]; ring
 
+theorem dbl_basic_correct (cv : EdC F) (r p : EPt F) :
+    let s := Ed.ed_dbl_basic fieldOps cv r p
+    s.x = addX cv.d p.x p.y p.x p.y ∧ s.y = addY cv.a cv.d p.x p.y p.x p.y ∧ s.z = p.z ∧ s.t = r.t ∧ s.coord = .basic := by
+  refine ⟨?_, ?_, rfl, rfl, rfl⟩
+  · simp only [Ed.ed_dbl_basic, fieldOps, addX, div_eq_mul_inv, Nat.cast_one]; ring
+  · simp only [Ed.ed_dbl_basic, fieldOps, addY, div_eq_mul_inv, Nat.cast_one]; ring
+
 theorem dbl_dens (cv : EdC F) (x y : F) (hc : OnCurve cv x y) :
     1 + cv.d * x * x * y * y = cv.a * x ^ 2 + y ^ 2 ∧ 1 - cv.d * x * x * y * y = 2 - (cv.a * x ^ 2 + y ^ 2) := by
   unfold OnCurve at hc
